@@ -375,7 +375,9 @@ def run_cfg(cfg, rec=None):
             user = [np.sign(rs.randn(d, rank)) * 0.5 for d in cfg["shape"]]
         init = CPTensor((None, [np.array(f, copy=True) for f in user]))
     else:
-        user = [rs.randn(d, rank) for d in cfg["shape"]]
+        n_init = cfg.get("n_init", n)      # a CP tensor with fewer / more factors than the tensor has modes
+        dims = list(cfg["shape"][:n_init]) + [3] * max(0, n_init - n)
+        user = [rs.randn(d, rank) for d in dims]
         w = np.ones(rank) if cfg["init"] == "user_w1" else None
         init = (w, [np.array(f, copy=True) for f in user])
     kw = dict(n_iter_max=cfg["n_outer"], n_iter_max_inner=cfg["n_inner"], init=init, random_state=cfg["seed"],
@@ -415,6 +417,37 @@ def checked_modes(cfg):
     return out
 
 
+def err_ok(cfg):
+    """Corr.C11.tag_env: does `mttkrp * factors[-1]` broadcast when the last mode is not updated (last updated mode vs last mode)"""
+    n = len(cfg["shape"])
+    upd = updated_modes(n, cfg["fixed"])
+    if not upd or (n - 1) in upd:
+        return True
+    a, b = cfg["shape"][upd[-1]], cfg["shape"][n - 1]
+    return a == b or a == 1 or b == 1
+
+
+def n_init_of(cfg):
+    n = len(cfg["shape"])
+    return cfg.get("n_init", n) if cfg["init"] in ("user", "user_w1") else n
+
+
+def corner_raise(cfg):
+    """raises of constrained_parafac that are not validation errors and that the model mirrors (C11_no_mode_updated_raises,
+    C11_wrong_factor_count_raises, err_defined, inner budget 0): the request is valid but the run must raise"""
+    n = len(cfg["shape"])
+    if cfg["n_outer"] == 0:
+        return False
+    upd = updated_modes(n, cfg["fixed"])
+    if not upd:
+        return True                      # fixed_modes = [0, .., n-1, n-1]: nothing updated, `mttkrp` unbound
+    if cfg["n_inner"] == 0:
+        return True                      # x_split unbound
+    if n_init_of(cfg) != n:
+        return True                      # shapes not aligned
+    return (n - 1) not in upd and not err_ok(cfg)
+
+
 def degenerate_message(msg):
     """a raised run that is outside the property: singular Gram matrix / non-converging SVD / the harness' per-case timeout"""
     msg = str(msg)
@@ -435,18 +468,21 @@ def run_predicates(cfg, res):
         return fails, 0
     if res["status"] in ("skip",):
         return fails, 0
-    if res["status"] != "ok" and cfg["n_inner"] == 0 and cfg["n_outer"] > 0:
-        return fails, 0      # C11_admm_returns_operator_output: an inner budget >= 1 is needed (compared through the trace)
+    if res["status"] != "ok" and corner_raise(cfg):
+        return fails, 0      # a raise the model mirrors (inner budget 0, no mode updated, wrong number of factors, error
+                             # computation of a fixed last mode): compared through the trace, not judged here
     if res["status"] != "ok":
         if degenerate_message(res["message"]):
             return fails, 0  # degenerate problem (singular Gram matrix) or timeout on a loaded machine, outside the property
         fails.append(("C11_valid_request_returns", f"valid request raised: {res['message']}"))
         return fails, 0
     nchk = 0
-    if len(res["factors"]) != n:
-        fails.append(("C11_skeleton", f"{len(res['factors'])} factors returned for order {n}"))
+    if len(res["factors"]) != n_init_of(cfg):
+        fails.append(("C11_skeleton", f"{len(res['factors'])} factors returned, {n_init_of(cfg)} initial factors"))
         return fails, 0
     for m, k, p in checked_modes(cfg):
+        if m >= len(res["factors"]):
+            continue
         F = res["factors"][m]
         if F.shape != (cfg["shape"][m], cfg["rank"]):
             fails.append(("C11_feasible_" + k, f"mode {m}: factor shape {F.shape}"))
@@ -470,7 +506,7 @@ def prov_lit(cfg, res):
             return None
         return "Err"
     out = []
-    for m in range(n):
+    for m in range(len(res["factors"])):
         F = res["factors"][m]
         cm = [c for c in res["calls"] if c[0] == m]
         if cm:
@@ -484,7 +520,7 @@ def prov_lit(cfg, res):
                     out.append("PvOther")
             else:
                 out.append("PvOther")
-        elif res["user"] is not None and res["user"][m].shape == F.shape and np.array_equal(res["user"][m], F, equal_nan=True):
+        elif res["user"] is not None and m < len(res["user"]) and res["user"][m].shape == F.shape and np.array_equal(res["user"][m], F, equal_nan=True):
             out.append(f"PvUser {C.nat(m)}")
         else:
             out.append("PvOther")
@@ -820,6 +856,33 @@ def gen_run_cfgs(tier, rng):
         cfg.update(n_outer=rng.choice([0, 1, 1, 3]), n_inner=0, init=rng.choice(["svd", "random", "user"]),
                    spec=spec_to_json({k: form_spec(k, rng.choice(["list", "dict"]), S, n, rng.choice(RUN_PARAMS[k]))}))
         yield cfg, "inner0"
+    # corners of the loop that are not validation errors (the model mirrors them): fixed_modes with repeated entries (the last mode
+    # stays fixed / no mode is updated), a user CP tensor with too few / too many factors
+    for _ in range(3 * mult):
+        for variant in ("all_fixed", "last_twice", "last_twice_same_dim", "first_twice", "last_twice_plus", "short_init", "long_init", "short_init_w1"):
+            cfg = base()
+            n = len(cfg["shape"])
+            k = rng.choice(HARD)
+            S = tuple(sorted(rng.sample(range(n), rng.randint(1, n))))
+            cfg.update(n_outer=rng.choice([0, 1, 1, 3]), n_inner=rng.choice([1, 3]), init=rng.choice(["svd", "random", "user"]), via_class=False,
+                       spec=spec_to_json({k: form_spec(k, rng.choice(["list", "dict"]), S, n, rng.choice(RUN_PARAMS[k]))}))
+            if variant == "all_fixed":
+                cfg["fixed"] = list(range(n)) + [n - 1]
+            elif variant == "last_twice":
+                cfg["shape"] = [2, 3, 4, 5][:n] if n == 4 else [2, 3, 4]
+                cfg["fixed"] = [n - 1, n - 1]
+            elif variant == "last_twice_same_dim":
+                cfg["shape"][n - 2] = cfg["shape"][n - 1]
+                cfg["fixed"] = [n - 1, n - 1]
+            elif variant == "first_twice":
+                cfg["fixed"] = [0, 0]
+            elif variant == "last_twice_plus":
+                cfg["fixed"] = [n - 1, 0, n - 1]
+            else:
+                cfg["init"] = "user_w1" if variant == "short_init_w1" else "user"
+                cfg["n_init"] = n + 1 if variant == "long_init" else n - 1
+                cfg["shape"] = [max(2, d) for d in cfg["shape"]]
+            yield cfg, "corner"
     # exact ties in the iterates: data constant along the constrained mode (replicated slices) / one magnitude, structured warm
     # starts (all ones, identical rows, one magnitude) or svd; parameters below the number of tied entries
     for k in HARD:
@@ -993,7 +1056,7 @@ def run(chk):
                 cid = len(cases)
                 n = len(cfg["shape"])
                 user = cfg["init"] not in ("svd", "random")
-                cases.append(f"CTrace {idlit(cid)} {n}%nat {specs_lit(spec)} {C.boolc(user)} {C.nat_list(cfg['fixed'])} "
+                cases.append(f"CTrace {idlit(cid)} {n}%nat {specs_lit(spec)} {C.boolc(user)} {n_init_of(cfg) if user else n}%nat {C.boolc(err_ok(cfg))} {C.nat_list(cfg['fixed'])} "
                              f"{cfg['n_outer']}%nat {cfg['n_inner']}%nat {lit}")
                 meta.append(("trace", cfg, lit))
                 n_trace += 1
